@@ -3,6 +3,7 @@
 //! oracles, engine).
 #![allow(dead_code)]
 
+pub mod collisions;
 pub mod conv;
 pub mod core;
 pub mod deliver;
